@@ -150,6 +150,26 @@ def run_tlc(module, cfg, env=None, workers=4, timeout=600, heap="4g", deque=Fals
     return rc, out
 
 
+def tlc_json_lines(out, tag):
+    """records printed by a spec with PrintT(ToJson([tag |-> ..., ...])): TLC prints the JSON text as one
+    TLA+ string literal per line"""
+    recs = []
+    prefix = '"{'
+    for line in out.splitlines() if isinstance(out, str) else out:
+        line = line.rstrip("\n")
+        if line.startswith(prefix) and line.endswith('}"'):
+            try:
+                r = json.loads(json.loads(line))
+            except ValueError:
+                try:
+                    r = json.loads(line[1:-1].replace('\\"', '"').replace("\\\\", "\\"))
+                except ValueError:
+                    continue
+            if r.get("tag") == tag:
+                recs.append(r)
+    return recs
+
+
 RE_STATES = re.compile(r"(\d+) states generated, (\d+) distinct states found")
 
 
@@ -227,7 +247,9 @@ class Verdict:
             if written >= 10:
                 break
             dig = hashlib.sha256(json.dumps(v["replay"], sort_keys=True).encode()).hexdigest()[:12]
-            path = os.path.join(REPLAYS, "%s-%s.json" % (self.prop, dig))
+            rdir = REPLAYS if not run_tag() else os.path.join(WORK, "replays" + run_tag())
+            os.makedirs(rdir, exist_ok=True)
+            path = os.path.join(rdir, "%s-%s.json" % (self.prop, dig))
             with open(path, "w") as f:
                 json.dump(dict(property=self.prop, key=v["key"], what=v["what"], replay=v["replay"]), f, indent=1)
             print("VIOLATION property=%s replay=%s" % (self.prop, path))
